@@ -76,8 +76,8 @@ Valid(t, v) ==
               LET f == Fields(P, t)[i] IN f.n \in DOMAIN v.o /\ Valid(f.t, v.o[f.n])
     ELSE IF IsUser(t) THEN v.k = "str"
     ELSE CASE t.b \in {"string", "file", "path"} -> v.k = "str"
-           [] t.b = "int" -> v.k = "int"
-           [] t.b = "float" -> v.k \in {"int", "float"}
+           [] t.b = "int" -> v.k = "int" \/ (v.k = "big" /\ v.fits)
+           [] t.b = "float" -> v.k \in {"int", "float", "big"}
            [] t.b = "bool" -> v.k = "bool"
            [] t.b = "map" -> v.k = "obj"
 
@@ -119,7 +119,7 @@ Filter(t, v) ==
              IN [v |-> VObj([x \in names |-> fs[x].v]), err |-> \E x \in names : fs[x].err,
                  fatal |-> \E x \in names : fs[x].fatal]
     ELSE \* int
-        IF v.k = "int" THEN [v |-> v, err |-> FALSE, fatal |-> FALSE]
+        IF v.k = "int" \/ (v.k = "big" /\ v.fits) THEN [v |-> v, err |-> FALSE, fatal |-> FALSE]
         \* an integral float is rewritten as an integer; the code also hands back the
         \* (non-fatal) parse error of the first attempt
         ELSE IF IsIntegral(v) THEN [v |-> AsInt(v), err |-> TRUE, fatal |-> FALSE]
@@ -127,9 +127,17 @@ Filter(t, v) ==
 
 ---------------------------------------------------------------------------
 (* value universe: per type, valid values and near misses *)
+(* integer literals at and beyond the ends of int64 (TLC's integers are 32 bits wide:
+   the digits are carried as a string, `fits` says whether the number is an int64) *)
+Big(s, fits) == [k |-> "big", s |-> s, fits |-> fits]
+BigInts == {Big("9223372036854775807", TRUE), Big("-9223372036854775808", TRUE),
+            Big("9223372036854775808", FALSE), Big("-9223372036854775809", FALSE),
+            Big("9999999999999999999", FALSE), Big("-9999999999999999999", FALSE),
+            Big("18446744073709551616", FALSE)}
 Scalars == {Null, VInt(1), VInt(2), [k |-> "float", f |-> "1.0"], [k |-> "float", f |-> "1.5"],
             [k |-> "float", f |-> "1e19"],        \* integral, but not an int64
-            VStr("x"), VStr("1"), VBool(TRUE)}
+            VStr("x"), VStr("1"), VBool(TRUE)} \cup BigInts
+
 
 RECURSIVE Good(_, _)
 Good(t, d) ==        \* some valid values of type t, nesting budget d
@@ -153,7 +161,7 @@ Good(t, d) ==        \* some valid values of type t, nesting budget d
                \* undeclared extra field: still valid for validation
                \cup {VObj(first @@ ("zz" :> VStr("q")))})
     ELSE IF IsUser(t) \/ t.b \in {"string", "file", "path"} THEN {Null, VStr("x"), VStr("/p/f.txt")}
-    ELSE CASE t.b = "int" -> {Null, VInt(1), VInt(2)}
+    ELSE CASE t.b = "int" -> {Null, VInt(1), VInt(2), Big("9223372036854775807", TRUE), Big("-9223372036854775808", TRUE)}
            [] t.b = "float" -> {Null, VInt(1), [k |-> "float", f |-> "1.5"], [k |-> "float", f |-> "1.0"]}
            [] t.b = "bool" -> {Null, VBool(TRUE)}
            [] t.b = "map" -> {Null, VObj(<<>>), VObj("k" :> VInt(1)), VObj("k" :> VArr(<<VStr("x")>>))}
